@@ -929,3 +929,48 @@ fn range(cnt: u16) -> (usize, usize) {
 fn index(cnt: u16) -> usize {
     cnt as usize % MAX_ATOMIC_HISTORY
 }
+
+#[cfg(feature = "verif-hooks")]
+impl State {
+    pub(super) fn verif_dump(&self) -> String {
+        let stores: Vec<String> = self
+            .stores
+            .iter()
+            .map(|s| {
+                let fs: Vec<String> = s
+                    .first_seen
+                    .0
+                    .iter()
+                    .map(|v| {
+                        if *v == u16::MAX {
+                            "-".to_string()
+                        } else {
+                            v.to_string()
+                        }
+                    })
+                    .collect();
+                format!(
+                    "{{v={} hb={} mo={} sync={} fs=[{}] sc={}}}",
+                    s.value,
+                    s.happens_before.verif_dump(),
+                    s.modification_order.verif_dump(),
+                    s.sync.verif_dump(),
+                    fs.join(","),
+                    s.seq_cst as u8
+                )
+            })
+            .collect();
+        format!(
+            "Atomic cnt={} la={} lnl={} loaded={} uloaded={} stored={} umut={} mutating={} stores={}",
+            self.cnt,
+            Access::verif_dump(&self.last_access),
+            Access::verif_dump(&self.last_non_load_access),
+            self.loaded_at.verif_dump(),
+            self.unsync_loaded_at.verif_dump(),
+            self.stored_at.verif_dump(),
+            self.unsync_mut_at.verif_dump(),
+            self.is_mutating as u8,
+            stores.join(";")
+        )
+    }
+}
